@@ -207,6 +207,21 @@ class ModuleTaint:
                     out.append((fname, n.operand.lineno, "not operand", n.operand, self.is_elem(n.operand, loc)))
                 elif isinstance(n, ast.Call) and isinstance(n.func, ast.Name) and n.func.id == "bool" and n.args:
                     out.append((fname, n.lineno, "bool() argument", n.args[0], self.is_elem(n.args[0], loc)))
+                elif isinstance(n, ast.Call) and isinstance(n.func, ast.Name) and n.func.id in ("all", "any") and n.args:
+                    # all(values) / any(values): the truth value of every ITEM of the container
+                    a = n.args[0]
+                    cn = name_of(a)
+                    items_are_elements = cn is not None and cn in self.containers
+                    if isinstance(a, (ast.GeneratorExp, ast.ListComp)) and len(a.generators) == 1:
+                        g = a.generators[0]
+                        it_name = name_of(g.iter)
+                        if it_name in self.containers and isinstance(g.target, ast.Name):
+                            items_are_elements = self.is_elem(a.elt, loc | {g.target.id})
+                    out.append((fname, n.lineno, f"{n.func.id}() over", a, items_are_elements))
+                elif (isinstance(n, ast.Call) and isinstance(n.func, ast.Name) and n.func.id == "filter" and len(n.args) == 2
+                      and isinstance(n.args[0], ast.Constant) and n.args[0].value is None):
+                    cn = name_of(n.args[1])
+                    out.append((fname, n.lineno, "filter(None, ...) over", n.args[1], cn is not None and cn in self.containers))
                 elif isinstance(n, ast.Compare) and len(n.ops) == 1 and isinstance(n.ops[0], (ast.Is, ast.IsNot, ast.Eq, ast.NotEq)):
                     c = n.comparators[0]
                     if isinstance(c, ast.Constant) and c.value is None:
